@@ -23,6 +23,7 @@ import (
 	"io"
 	"iter"
 	"log/slog"
+	"maps"
 	"net/http"
 	"net/http/httputil"
 	"os"
@@ -163,6 +164,20 @@ func (r ResponseRef) LogValue() slog.Value {
 }
 
 type ResponseRefs []*ResponseRef
+
+// SharesResponseID reports whether another reference, selected by different
+// resolved header values, has the same response ID as he[i]. Response IDs are
+// hashes of the resolved values, so two variants can collide; the response
+// stored under such an ID may belong to either of them.
+func (he ResponseRefs) SharesResponseID(i int) bool {
+	for j, other := range he {
+		if j != i && other.ResponseID == he[i].ResponseID &&
+			!maps.Equal(other.VaryResolved, he[i].VaryResolved) {
+			return true
+		}
+	}
+	return false
+}
 
 func (he ResponseRefs) ResponseIDs() iter.Seq[string] {
 	return func(yield func(string) bool) {
